@@ -61,7 +61,7 @@ func genC10(cfg Config, emit Emit) error {
 		case 0:
 			s.Key = fmt.Sprintf("rsa%d", r.Intn(2))
 		case 1:
-			s.Key = fmt.Sprintf("wrap%d", r.Intn(6))
+			s.Key = fmt.Sprintf("wrap%s%d", []string{"", "U", "R"}[r.Intn(3)], r.Intn(6))
 		default:
 			s.Key = fmt.Sprintf("ed%d", r.Intn(12))
 		}
@@ -428,7 +428,7 @@ func execRcpt(a []string) Result {
 
 	// one alteration of the outcome (or of the signature), re-encoded and re-decoded like a received block
 	vfr := ucan.Verifier(sg.Verifier())
-	other := edPool[(atoi(strings.TrimLeft(s.Key, "edrsawp"))+5)%edPoolSize]
+	other := edPool[(atoi(strings.TrimLeft(s.Key, "edrsawpUR"))+5)%edPoolSize]
 	altN := func(t TV) datamodel.Node { n, _ := t.node(); return n }
 	linkN := func(k int) datamodel.Node { return altN(tvLink(dummyLink(k).String())) }
 	aocm, asig := ocmN, sigB
